@@ -199,7 +199,7 @@ func runCheck(cfg *Config) int {
 		return 2
 	}
 	known := loadKnownFindings(filepath.Join(cfg.Verif, "KNOWN_FINDINGS.txt"))
-	rep := &Report{Property: cfg.Property, Tier: cfg.Tier, Seed: cfg.Seed, cfg: cfg, Known: known, ContractSource: map[string]string{}}
+	rep := &Report{Property: cfg.Property, Tier: cfg.Tier, Seed: cfg.Seed, cfg: cfg, Known: known, ContractSource: map[string]string{}, mods: mods}
 	// work items grouped by module
 	byMod := map[string][]workItem{}
 	lemmasByMod := map[string][]struct {
